@@ -8,7 +8,13 @@ peer has closed fails with EPIPE at once, a connect to a removed socket fails at
 with no fault) the driver derives the outcome script the producer will experience from a three-bit
 model of the sink (current connection broken? listener up? stalled, about to kill a write half-way?), runs the proved model
 `Vflow.Producer.run` on it and prints what the sink must have received and the error counter.
-Faults on tcp/udp depend on kernel timing: `nd`. -/
+Faults on tcp/udp depend on kernel timing: `nd`.
+
+`z<k>` (stream sockets): the sink stays connected but does not read for some seconds while message `k`, larger than
+the socket buffers, is being written, then reads everything. That is no fault: the producer's write blocks and then
+returns nil, so in the outcome script the write is `ok` like any other — the event leaves the sink model untouched and
+what the model prints is what it prints for the script without the event. A script made of `z` events only is
+therefore fixed by the script itself on tcp as well (no fault, nothing for kernel timing to decide). -/
 namespace Driver
 open Vflow Vflow.Producer
 
@@ -42,6 +48,7 @@ def applyEvent (e : SinkEnv) (kind : Char) : SinkEnv :=
   | 's' => { e with stallPending := true }
   | 'd' => { e with broken := true, up := false }
   | 'u' => { e with up := true }
+  | 'z' => e   -- a silent but connected sink: the write blocks, then succeeds — not an outcome of its own
   | _ => e
 
 def envScript (rm : Nat) (events : List (Char × Nat)) : Nat → Nat → SinkEnv → List WOut × List DOut
@@ -79,7 +86,8 @@ def showRuns (cs : List Chunk) : String :=
 def producerLine (proto rm _seed n events : String) : String :=
   match rm.toNat?, n.toNat?, parseEvents events with
   | some rm, some n, some evs =>
-    if proto ≠ "unix" ∧ !evs.isEmpty then "nd" else
+    if proto = "udp" ∧ evs.any (·.1 == 'z') then "bad-op" else   -- a datagram socket cannot be stalled
+    if proto ≠ "unix" ∧ evs.any (·.1 != 'z') then "nd" else
     let sc := envScript rm evs n 0 {}
     let r := run (scriptW sc.1) (scriptD sc.2) rm (List.replicate n [])
     s!"ec={r.ec} recv={showRuns r.delivered}"
